@@ -90,6 +90,9 @@ def build_case(main_lens, confs, name_tag_at, name_tag, unpainted, main_last, ha
 
 class C10(Check):
     pid = "C10"
+    level_text = (
+        "Bounded exhaustive over size patterns x Unloc/Haplotig configurations x name tags x prefixes, > 9 chromosomes, two-haplotype layouts; reference naming model from the statement."
+    )
     technique = (
         "exhaustive scope enumeration on the real ScaffoldNamer/ChrNamer/sort/CSV code: every size pattern x Unloc/Haplotig configuration x "
         "name tag x prefix for 1-4 painted scaffolds, >9 chromosomes, two-haplotype alternating maps; reference naming model from the statement"
